@@ -608,7 +608,7 @@ func run(p *hx.Plan) []hx.Event {
 			}
 			err := e.mgr.AddPartition(e.taskCtx(), &model.DatabaseInfo{ID: 1, Name: c.DB}, c.pbInfo(),
 				&pb.PartitionInfo{PartitionID: c.Parts[pn][0], PartitionName: pn, CollectionId: c.ID, State: state, PartitionCreatedTimestamp: 2})
-			ev["c"], ev["p"], ev["err"] = c.Name, pn, err != nil
+			ev["c"], ev["p"], ev["err"], ev["dropped"] = c.Name, pn, err != nil, hx.B(st, "dropped")
 			regd := []string{}
 			for _, v := range c.SrcV {
 				if e.disp.Registered(v) {
